@@ -13,7 +13,9 @@ LEAN_MODULES = ["Barril.Props.C05"]
 DRIVERS = ["drv_fail"]
 DRIVER_EXE = "drv_fail"
 RULE = ("histories (<= 60 operations) over a private POSC database: every ordered pair of the 191 quantity "
-        "types (one seeded unit and category each) through Convert / Scalar creation / + - / < <= > >=, legacy-"
+        "types (one seeded unit and category each) through Convert / Scalar creation / + - / < <= > >= / "
+        "Scalar.GetValue, Array.GetValues, FractionScalar.GetValue in a unit of the other type (also after a valid "
+        "use of that unit, so that memoised conversion data is warm), legacy-"
         "spelled foreign units, the Unknown type, repeated failures (memo path) and interleaved valid operations "
         "on units and categories of one type; distinct = distinct operation; non-trivial = the operation mixes "
         "two quantity types or follows a failed operation in its history")
@@ -68,6 +70,13 @@ def _mk_ops(ctx, rng, a_t, b_t, which):
         ops.append(dict(k="cmp", f=rng.choice(["lt", "le", "gt", "ge"]), c1=ca, u1=ua, c2=cb, u2=ub, x=x, y=y))
     if "check" in which:
         ops.append(dict(k="check", c=ca, u=ub))
+    if "getvalue" in which:
+        # a value object asked for its value in a unit of another quantity type (object-level conversion routes)
+        if rng.random() < 0.6:
+            # first a VALID conversion into the very unit that is then asked of a value of another type
+            ops.append(dict(k="getvalue", w=rng.choice(["scalar", "array", "fraction"]), c=cb,
+                            u=rng.choice(ctx.units[b_t]), v=ub, x=y))
+        ops.append(dict(k="getvalue", w=rng.choice(["scalar", "array", "fraction"]), c=ca, u=ua, v=ub, x=x))
     return ops
 
 
@@ -82,7 +91,17 @@ def _valid_ops(ctx, rng, qt):
         dict(k="arith", f=rng.choice(["add", "sub"]), c1=ca, u1=ua, c2=cb, u2=ub, x=x, y=y),
         dict(k="cmp", f=rng.choice(["lt", "le", "gt", "ge"]), c1=ca, u1=ua, c2=cb, u2=ub, x=x, y=y + 1000 * abs(x) + 1000),
         dict(k="check", c=ca, u=ub),
+        dict(k="getvalue", w=rng.choice(["scalar", "array", "fraction"]), c=ca, u=ua, v=ub, x=x),
+        dict(k="getvalue", w=rng.choice(["scalar", "array", "fraction"]), c=ca, u=ua, v=ub, x=x),
     ])]
+
+
+def _expand(op):
+    """model-side reading of an operation: `getvalue` = create the object, then convert its value (that the
+    object-level routes equal the database conversion is C02's theorem scalar_getValue_eq_convert)"""
+    if op["k"] == "getvalue":
+        return [dict(k="create", c=op["c"], u=op["u"]), dict(k="convert", cq=op["c"], u=op["u"], v=op["v"], x=op["x"])]
+    return [op]
 
 
 def _encode(op):
@@ -98,13 +117,18 @@ def _encode(op):
 
 
 def _history(ops):
-    return dict(op="history", ops=[_encode(o) for o in ops], _t=dict(ops=ops))
+    enc, spans = [], []
+    for o in ops:
+        ex = _expand(o)
+        spans.append((len(enc), len(ex)))
+        enc += [_encode(e) for e in ex]
+    return dict(op="history", ops=enc, _t=dict(ops=ops, spans=spans))
 
 
 def _gen(ctx, salt, all_ops, n_random):
     rng = ctx.fresh_rng("C05" + salt)
     types = ctx.types
-    kinds = ["convert", "create", "arith", "cmp", "check"]
+    kinds = ["convert", "create", "arith", "cmp", "check", "getvalue"]
     buf = []
 
     def flush():
@@ -122,6 +146,9 @@ def _gen(ctx, salt, all_ops, n_random):
                 continue
             which = kinds if all_ops else [kinds[i % len(kinds)]]
             i += 1
+            if rng.random() < 0.3:
+                # a valid use of the other type first, so that whatever a route memoises for it is warm
+                buf += [o for o in _valid_ops(ctx, rng, b_t) if o["k"] == "getvalue"]
             buf += _mk_ops(ctx, rng, a_t, b_t, which)
             if rng.random() < 0.15:
                 buf += _valid_ops(ctx, rng, rng.choice([a_t, b_t]))
@@ -198,6 +225,17 @@ def _run_op(db, op):
         if k == "convert":
             r = db.Convert(op["cq"], op["u"], op["v"], op["x"])
             return dict(ok=dict(x=float(r).hex()))
+        if k == "getvalue":
+            from barril.units import Array, FractionScalar
+            from barril.basic.fraction import FractionValue
+
+            if op["w"] == "scalar":
+                r = Scalar(op["x"], op["u"], op["c"]).GetValue(op["v"])
+            elif op["w"] == "array":
+                r = Array([op["x"]], op["u"], op["c"]).GetValues(op["v"])[0]
+            else:
+                r = float(FractionScalar(op["c"], FractionValue(op["x"]), op["u"]).GetValue(op["v"]))
+            return dict(ok=dict(x=float(r).hex()))
         a = Scalar(op["x"], op["u1"], op["c1"])
         b = Scalar(op["y"], op["u2"], op["c2"])
         if k == "arith":
@@ -260,9 +298,17 @@ def _agree_op(op, io, mo):
 
 def agree(c, io, mo, ctx):
     ops = c["_t"]["ops"]
-    if len(io["outs"]) != len(mo.get("outs", [])):
+    spans = c["_t"].get("spans") or [(i, 1) for i in range(len(ops))]
+    mouts = mo.get("outs", [])
+    if len(io["outs"]) != len(ops) or (spans and spans[-1][0] + spans[-1][1] != len(mouts)) or (not spans and mouts):
         return "length"
-    for i, (op, a, b) in enumerate(zip(ops, io["outs"], mo["outs"])):
+    for i, (op, a, (start, n)) in enumerate(zip(ops, io["outs"], spans)):
+        part = mouts[start:start + n]
+        b = part[-1]
+        for earlier in part[:-1]:
+            if "err" in earlier:  # the object could not even be created: that is the outcome of the whole step
+                b = earlier
+                break
         why = _agree_op(op, a, b)
         if why:
             return "step %d %s: %s" % (i, op, why)
@@ -319,6 +365,12 @@ def _must_fail(db, op):
         if t is None or tu is None or t == "Unknown":
             return None
         return "units" if tu != t else None
+    if k == "getvalue":
+        t = cat_type(op["c"])
+        tu, tv = _qt(db, None, op["u"]), _qt(db, None, op["v"])
+        if None in (t, tu, tv) or t == "Unknown" or tu != t:
+            return None
+        return "units" if tv != t else None
     if k in ("arith", "cmp"):
         t1, t2 = cat_type(op["c1"]), cat_type(op["c2"])
         tu1, tu2 = _qt(db, None, op["u1"]), _qt(db, None, op["u2"])
